@@ -1,6 +1,7 @@
 import MemcVerif.Proofs.Policy
 import MemcVerif.Model.Server
 import MemcVerif.Proofs.PolicySim
+import MemcVerif.Props.C01
 /-!
 # C20 — behaviour is the same under every runtime configuration
 
@@ -93,6 +94,65 @@ theorem C20_room_means_ok (p : Policy) (now : Nat) (k : Key) (r : Record)
   simp only [hg, if_false]
   rfl
 
+theorem feedSeq_append {σ : Type} (C : CacheOps σ) (limit : Nat) (c : Conn) (s : σ) (a b : List (Nat × Bytes)) :
+    feedSeq C limit c s (a ++ b) =
+      ((feedSeq C limit (feedSeq C limit c s a).1 (feedSeq C limit c s a).2.1 b).1,
+       (feedSeq C limit (feedSeq C limit c s a).1 (feedSeq C limit c s a).2.1 b).2.1,
+       (feedSeq C limit c s a).2.2 ++ (feedSeq C limit (feedSeq C limit c s a).1 (feedSeq C limit c s a).2.1 b).2.2) := by
+  induction a generalizing c s with
+  | nil => rfl
+  | cons e rest ih =>
+    obtain ⟨now, chunk⟩ := e
+    simp only [List.cons_append, feedSeq]
+    rw [ih]
+
+/-- arrivals of whole batches: the connection model over the bare store is `feedBatches` -/
+theorem feedSeq_batches (limit : Nat) (c : Conn) (s : MemStore) (bs : List Batch) :
+    (feedSeq memOps limit c s (bs.map fun b => (b.now, b.bytes))).1 = (feedBatches limit c s bs).1 ∧
+    (feedSeq memOps limit c s (bs.map fun b => (b.now, b.bytes))).2.1 = (feedBatches limit c s bs).2.1 := by
+  induction bs generalizing c s with
+  | nil => exact ⟨rfl, rfl⟩
+  | cons b rest ih =>
+    simp only [List.map_cons, feedSeq, feedBatches]
+    exact ih _ _
+
+/-- the arrivals of the scenario: the Set batch, the foreign batches, then the Get frame at `t` -/
+def rywArrivals (t0 t : Nat) (k : Key) (v : Bytes) (f ttl : Nat) (hs : ReqHeader) (fset fget : Bytes) (mid : List Batch) :
+    List (Nat × Bytes) :=
+  ((⟨t0, [(fset, hs)], [.set hs f ttl k v]⟩ :: mid : List Batch).map fun b => (b.now, b.bytes)) ++ [(t, fget)]
+
+/-- **C01 for eviction policy random with a limit that is not reached** (the property quantifies over both
+    policies): a Set frame for `(k, v, f, ttl)` arrives; then any arrivals whose frames address other keys; then a Get
+    frame for `k` before the deadline. If the policy evicted nothing (`bad = false` at the end) the bytes written back
+    for the Get are the encoding of `v`, `f` and the CAS the Set was acknowledged with — exactly as without policy. -/
+theorem C01_read_your_writes_under_policy (limit : Nat) (p : Policy) (t0 t : Nat) (k : Key) (v : Bytes) (f ttl : Nat)
+    (hs hg : ReqHeader) (fset fget : Bytes) (mid : List Batch) (htape : p.tape = [])
+    (hset : Batch.OK limit ⟨t0, [(fset, hs)], [.set hs f ttl k v]⟩) (hsop : isSetOp hs.opcode = true) (hcas : hs.cas = 0)
+    (hmid : ∀ b ∈ mid, b.OK limit) (hfor : ∀ b ∈ mid, ∀ e ∈ b.ops, Foreign k e.2)
+    (hget : Batch.OK limit ⟨t, [(fget, hg)], [.get hg k]⟩) (hgop : quietGetOp hg.opcode = false)
+    (hlive : ttl = 0 ∨ t < t0 + ttl) :
+    (feedSeq polOps limit Conn.init p (rywArrivals t0 t k v f ttl hs fset fget mid)).2.1.bad = false →
+    (feedSeq polOps limit Conn.init p (rywArrivals t0 t k v f ttl hs fset fget mid)).2.2.getLast? =
+      some (encode (Resp.get
+        { opcode := hg.opcode, opaq := hg.opaq,
+          bodyLen := v.length + 4 + (if getKeyOp hg.opcode then k else []).length,
+          keyLen := (if getKeyOp hg.opcode then k else []).length, extrasLen := 4, cas := p.inner.casId }
+        f (if getKeyOp hg.opcode then k else []) v)) := by
+  intro hok
+  obtain ⟨_, _, h3⟩ := C20_policy_transparent_stream limit Conn.init p _ htape hok
+  rw [h3]
+  have hall : ∀ b ∈ (⟨t0, [(fset, hs)], [.set hs f ttl k v]⟩ :: mid : List Batch), b.OK limit := by
+    intro b hb
+    rcases List.mem_cons.mp hb with rfl | hb
+    · exact hset
+    · exact hmid b hb
+  simp only [rywArrivals, feedSeq_append, feedSeq]
+  obtain ⟨hb1, hb2⟩ := feedSeq_batches limit Conn.init p.inner (⟨t0, [(fset, hs)], [.set hs f ttl k v]⟩ :: mid)
+  rw [hb1, hb2, (C01_wire_history limit p.inner _ hall).1]
+  have := C01_wire_read_your_writes limit p.inner t0 t k v f ttl hs hg fset fget mid hset hsop hcas hmid hfor hget hgop hlive
+  simp only at this
+  simp [this]
+
 /-- the premises are met: a Set under a roomy limit evicts nothing; under a limit below the stored bytes the
     same request with a non-empty store is flagged (the hypothesis is not always true) -/
 example : (Policy.init 100000).tape = [] ∧
@@ -127,3 +187,6 @@ end Memc
 #print axioms Memc.C20_policy_transparent_stream
 #print axioms Memc.C20_limit_never_reached
 #print axioms Memc.C20_room_means_ok
+#print axioms Memc.feedSeq_append
+#print axioms Memc.feedSeq_batches
+#print axioms Memc.C01_read_your_writes_under_policy
